@@ -24,7 +24,7 @@ RULE = ("products on the tracing filesystem (vfs://): per case one image (both s
         "(type, rpc class, selection class, number of groups touched) signatures")
 ASSUMPTIONS = ["file objects of the tracing filesystem have independent positions like real files",
                "metadata calls (info/exists) are not reads"]
-REQUIRED_OBS = ["loads_checked", "read_events", "open_logs_checked", "buffered_file_cases", "burst_header_cases"]
+REQUIRED_OBS = ["loads_checked", "read_events", "open_logs_checked", "buffered_file_cases", "burst_header_cases", "images_over_128MiB"]
 CASE_TIMEOUT = 600
 
 NCASES = {"quick": 160, "thorough": 3000}
@@ -171,6 +171,12 @@ def run_case(i, tier, seed):
         pixels = rng.randrange(1, 16)
         rpc = rng.choice(harness.rpc_candidates(lines, rng))
         sels = [selections.random_selection(rng, lines, pixels) for _ in range(NSEL[tier])]
+    if i == 1 or (tier == "thorough" and i % 500 == 1):
+        # one image larger than 128 MiB (records of ~1 MB): the request count at open time must still be ceil(lines / rpc)
+        typ, lines, pixels = "IU2", rng.randrange(136, 142), 499900
+        rpc = rng.choice([1024, lines, 70])
+        sels = [{"mode": "isel", "rows": r, "columns": ["all"]} for r in (["int", 0], ["int", lines - 1], ["slice", 3, 5, None], ["slice", 69, 72, None])]
+        obs["images_over_128MiB"] = 1
     tracefs.reset_log()
     # optional header content must not change how requests are grouped: ScanSAR burst description / pixel range filled in half of the cases
     fd = None
